@@ -1446,7 +1446,11 @@ package larking
 // entry, which refuses its content type (C05, C06: gRPC-web is one of the transports).
 //@ det HeaderGet "(http.Header).Get" string
 //@ func (*Mux).ServeHTTP serves C06 C05 partial ghost
-//@   requires m != nil && r != nil
+//@   requires m != nil && r != nil && r.URL != nil
+//@   ghost at `if !strings.HasPrefix(r.URL.Path, "/") {` p0 = r.URL.Path
+//@   assert atcall `m.serveHTTP(` [the-path-that-is-routed-is-the-request-path-less-at-most-one-final-slash C01]
+//@        (hasprefix(p0, "/") ==> len(r.URL.Path) == len(p0) || (len(r.URL.Path) == len(p0) - 1 && hassuffix(p0, "/")))
+//@        && (!hasprefix(p0, "/") ==> len(r.URL.Path) == len(p0) + 1 || (len(r.URL.Path) == len(p0) && (hassuffix(p0, "/") || len(p0) == 0)))
 //@   assert atcall `m.serveGRPC(` [grpc-web-is-never-dispatched-as-plain-grpc C06 C05] !hasprefix(HeaderGet(r.Header, "Content-Type"), "application/grpc-web")
 //@   witness verifWitnessGRPCWebOverHTTP2 for grpc-web-is-never
 
@@ -1557,3 +1561,25 @@ package larking
 //@ func NewUnaryContext$1 serves C18 partial ghost
 //@   assert atcall `ctxFn(` [the-context-function-sees-the-unary-calls-own-name C18] arg1 == info.FullMethod && !arg2 && !arg3
 //@   assert atcall `handler(` [the-handler-runs-in-the-new-context-with-the-request C18] arg0 == ctx && same(arg1, req)
+
+// ---------------------------------------------------------------------------
+// Header and trailer metadata are copied when the handler sets them (C14: what
+// reaches the client is what was set, not what the handler's map holds later): the
+// stream never keeps the handler's own map.
+//@ func (*streamHTTP).SetHeader serves C14 partial ghost post
+//@   returns (err)
+//@   requires s != nil
+//@   ensures [header-metadata-is-copied-when-it-is-set C14] at every return err == nil && md != nil ==> s.header != md
+//@ func (*streamHTTP).SetTrailer serves C14 partial ghost post
+//@   requires s != nil
+//@   ensures [trailer-metadata-is-copied-when-it-is-set C14] at every return md != nil ==> s.trailer != md
+//@ func (*streamGRPC).SetHeader serves C14 partial ghost post
+//@   returns (err)
+//@   requires s != nil
+//@   ensures [header-metadata-is-copied-when-it-is-set C14] at every return err == nil && md != nil ==> s.header != md
+//@ func (*streamGRPC).SetTrailer serves C14 partial ghost post
+//@   requires s != nil
+//@   ensures [trailer-metadata-is-copied-when-it-is-set C14] at every return md != nil ==> s.trailer != md
+//@ func (*streamWS).SetTrailer serves C14 partial ghost post
+//@   requires s != nil
+//@   ensures [trailer-metadata-is-copied-when-it-is-set C14] at every return md != nil ==> s.trailer != md
